@@ -6,8 +6,8 @@ J=${1:-4}; F=${2:-.}
 mkdir -p build; : > build/rerun_seeded.log
 ls seeded | grep -E "$F" | xargs -P "$J" -I{} bash -c '
   n={}; p=$(python3 -c "import json;print(json.load(open(\"seeded/$n/meta.json\"))[\"property\"])")
-  out=$(tools/try_mutation.sh $p seeded/$n/patch.diff $PWD/seeded/$n/demo.py 2>&1 | tail -1)
+  out=$(tools/try_mutation.sh $p $PWD/seeded/$n/patch.diff $PWD/seeded/$n/demo.py 2>&1 | tail -1)
   echo "$n | $out" >> build/rerun_seeded.log'
-missed=$(grep -c "exit=0" build/rerun_seeded.log)
+missed=$(grep -vc "mutated=1 .* exit=1" build/rerun_seeded.log)
 echo "seeded changes re-run: $(wc -l < build/rerun_seeded.log), not caught: $missed"
 [ "$missed" = 0 ]
